@@ -124,6 +124,52 @@ def r04_1(ctx: Ctx, rep: Report) -> None:  # noqa: C901
             rep.ok(f"{q}: write-set on self", "empty (works on self.copy())", where=where(f))
 
 
+def _r04_3_enumerate(ctx: Ctx, rep: Report, ds: Func, defs, resolve, enum_filters) -> None:
+    """Sub-verdicts (i)/(ii) of R04.3 for the positional form of the filter."""
+    for comp, g, mem, pos, base in enum_filters:
+        rep.instance()
+        bound = pos.comparators[0]
+        bdef = resolve(bound)
+        k = None
+        lines_list = None
+        if isinstance(bdef, ast.BinOp) and isinstance(bdef.op, ast.Add):
+            for a, b in ((bdef.left, bdef.right), (bdef.right, bdef.left)):
+                if isinstance(b, ast.Constant) and isinstance(b.value, int) and isinstance(a, ast.Call) and isinstance(a.func, ast.Attribute) and a.func.attr == "index":
+                    k, lines_list = b.value, a.func.value
+        elif isinstance(bdef, ast.Call) and isinstance(bdef.func, ast.Attribute) and bdef.func.attr == "index":
+            k, lines_list = 0, bdef.func.value
+        # positions kept unfiltered: i < index(top) + k  (or <=): the top itself (position index(top)) must be among them
+        kept_through = None if k is None else (k - 1 if isinstance(pos.ops[0], ast.Lt) else k)
+        if kept_through is None:
+            rep.violation("Acl.delete_shadow", snippet(comp, 80), f"the position bound {snippet(bound)} of the unfiltered part is not `<lines>.index(top) + 1`", where(ds, comp))
+        elif kept_through < 0:
+            rep.violation("Acl.delete_shadow", f"{snippet(pos)} with {snippet(bound)} = {snippet(bdef)}", "the filtered part starts at the top itself, not after it: the covering entry can be removed", where(ds, comp))
+        elif kept_through > 0:
+            rep.violation("Acl.delete_shadow", f"{snippet(pos)} with {snippet(bound)} = {snippet(bdef)}", "entries directly below the top are exempt from the filter: shadowed entries stay", where(ds, comp))
+        else:
+            rep.ok(f"Acl.delete_shadow: filter over positions of {snippet(base, 40)}", f"positions up to the top are kept, positions after it filtered ({snippet(pos)}; {snippet(bound)} = {snippet(bdef, 40)})", where=where(ds, comp))
+        ll = resolve(lines_list)
+        rep.instance()
+        if isinstance(ll, ast.ListComp) and len(ll.generators) == 1 and isinstance(ll.elt, ast.Attribute) and ll.elt.attr == "line" and src(ll.generators[0].iter) in (src(base), src(resolve(base))) and not ll.generators[0].ifs:
+            rep.ok(f"Acl.delete_shadow: {snippet(lines_list, 20)} = {snippet(ll, 50)}", "positions of lines = positions of items", where=where(ds))
+        else:
+            rep.violation("Acl.delete_shadow", f"{snippet(lines_list) if lines_list is not None else '?'} = {snippet(ll) if ll is not None else '?'}", f"the index is not computed on the line projection of {snippet(base)}: positions do not correspond", where(ds))
+        rep.instance()
+        S = mem.comparators[0]
+        sdefs = defs.get(S.id, []) if isinstance(S, ast.Name) else []
+        from_report = False
+        for sd in sdefs:
+            for x in ast.walk(sd):
+                if isinstance(x, ast.Call) and isinstance(x.func, ast.Attribute) and x.func.attr == "values":
+                    root = resolve(x.func.value)
+                    if _is_shading_call(root) or (isinstance(x.func.value, ast.Name) and any(_is_shading_call(y) for y in defs.get(x.func.value.id, []))):
+                        from_report = True
+        if from_report:
+            rep.ok(f"Acl.delete_shadow: predicate `{snippet(mem)}`", f"{snippet(S)} is the flattened report", where=where(ds, comp))
+        else:
+            rep.violation("Acl.delete_shadow", snippet(mem), "entries are removed by something other than membership in the shading report", where(ds, comp))
+
+
 def r04_3(ctx: Ctx, rep: Report) -> None:  # noqa: C901
     rep.rule("R04.3")
     ds = ctx.func("Acl.delete_shadow")
@@ -150,8 +196,26 @@ def r04_3(ctx: Ctx, rep: Report) -> None:  # noqa: C901
             for cond in g.ifs:
                 if isinstance(cond, ast.Compare) and len(cond.ops) == 1 and isinstance(cond.ops[0], ast.NotIn) and isinstance(cond.left, ast.Attribute) and cond.left.attr == "line" and src(cond.left.value) == src(g.target):
                     filters.append((n, g, cond))
+    # the same filter written over positions: [o for i, o in enumerate(X) if i < K or o.line not in S]
+    enum_filters = []
+    for n in own_nodes(ds.node):
+        if isinstance(n, ast.ListComp) and len(n.generators) == 1:
+            g = n.generators[0]
+            if isinstance(g.iter, ast.Call) and src(g.iter.func) == "enumerate" and len(g.iter.args) == 1 and isinstance(g.target, ast.Tuple) and len(g.target.elts) == 2 and len(g.ifs) == 1 and src(n.elt) == src(g.target.elts[1]):
+                ivar, ovar = src(g.target.elts[0]), src(g.target.elts[1])
+                t = g.ifs[0]
+                if isinstance(t, ast.BoolOp) and isinstance(t.op, ast.Or) and len(t.values) == 2:
+                    pos = [v for v in t.values if isinstance(v, ast.Compare) and len(v.ops) == 1 and src(v.left) == ivar and isinstance(v.ops[0], (ast.Lt, ast.LtE))]
+                    mem = [v for v in t.values if isinstance(v, ast.Compare) and len(v.ops) == 1 and isinstance(v.ops[0], ast.NotIn) and isinstance(v.left, ast.Attribute) and v.left.attr == "line" and src(v.left.value) == ovar]
+                    if len(pos) == 1 and len(mem) == 1:
+                        enum_filters.append((n, g, mem[0], pos[0], g.iter.args[0]))
+    if enum_filters and not filters:
+        _r04_3_enumerate(ctx, rep, ds, defs, resolve, enum_filters)
+        filters_done = True
+    else:
+        filters_done = False
     rep.instance()
-    if not filters:
+    if not filters and not filters_done:
         rep.violation("Acl.delete_shadow", "filter", "no filter of the form [o for o in <items below the top> if o.line not in <report>] removes the shadowed entries", where(ds))
         return
     copies = [k for k, v in defs.items() if any(isinstance(x, ast.Call) and isinstance(x.func, ast.Attribute) and x.func.attr == "copy" and src(x.func.value) == "self" for x in v)]
@@ -226,6 +290,11 @@ def r04_3(ctx: Ctx, rep: Report) -> None:  # noqa: C901
             else:
                 rep.violation("Acl.delete_shadow", snippet(st), "the new item list is not (items up to the top, unfiltered) + (filtered items below)", where(ds, st))
                 concat_ok = True
+    if not concat_ok and filters_done:
+        for st in stores:
+            if any(st.value is comp for comp, _g, _m, _p, _b in enum_filters):
+                concat_ok = True
+                rep.ok(f"Acl.delete_shadow: {snippet(st)}", "positions up to the top kept whole, positions below filtered, order kept (one comprehension over the list)", where=where(ds, st))
     if not concat_ok:
         rep.violation("Acl.delete_shadow", "item list rebuild", "no `<copy>.items = head + filtered tail` statement found", where(ds))
     # (v)/(vi) regroup and final store
